@@ -1,5 +1,6 @@
 import S3V.Thm.FsPathPlan
 import S3V.Thm.FsPathInj
+import S3V.Thm.FsPathAbs
 /-!
 # C17 — the file-system backend never leaves its root nor crosses bucket boundaries (property theorems only)
 
@@ -133,6 +134,18 @@ theorem C17_bookkeeping_names_injective (enc : Bytes → Bytes) (hi : ∀ x y, e
    fun _ _ h => tmpName_inj h,
    fun b k uo b' k' u u' n c => ⟨metadataName_ne_internalInfoName hd b k b' k' uo, kinds_disjoint enc b k uo u u' n c⟩⟩
 
+/-- **The library layer confines every string.** Independently of the key check: for ANY string handed to
+    `resolve_abs_path` (= `absolutize_virtually(root)`), with a root and a process CWD that are absolute and free
+    of `..`, the result — if there is one; the alternatives are `InvalidInput` and the path-dedot panic — is a
+    dot-free location that has the root's components as a prefix. (`..` is resolved lexically and clamped, an
+    absolute string outside the root is refused.) This is what keeps every path of the backend under the root
+    even for call sites that do no checking of their own; it does *not* keep a key inside its bucket — that is
+    `C17_object_path_confined`. -/
+theorem C17_resolve_abs_path_confines_every_string (e : Env) (hr : RootOk e.root) (hc : RootOk e.cwd)
+    (s p : Bytes) (h : resolveAbsPath e s = .ok p) :
+    NoDots (components p) ∧ components e.root <+: components p :=
+  resolveAbsPath_under_root e hr hc h
+
 /-- **Every operation stays under the root.** For every operation and all inputs, every entry of the may-touch
     table is anchored at a dot-free location, and every node it denotes has the root's components as a prefix. -/
 theorem C17_touched_under_root (e : Env) (enc : Bytes → Bytes) (hr : RootOk e.root) (he : EncNoSlash enc)
@@ -181,5 +194,9 @@ example : ((plan exEnv id (.copyObject false [98, 107] [97, 47, 98] [98, 107] [9
     (plan exEnv id (.copyObject false [98, 107] [97, 47, 98] [98, 107] [99])).err) = (8, none) := by rfl
 example : (plan exEnv id (.getObject [98, 107] [97, 47, 98])).touches.length = 3 := by rfl
 example : bucketNameFirstOk [98, 107] = true := by decide
+/-- `a/../../x` is clamped at the root: `/r/x`; an absolute path outside the root is refused -/
+example : resolveAbsPath exEnv [97, 47, 46, 46, 47, 46, 46, 47, 120] = .ok [47, 114, 47, 120] := by rfl
+example : resolveAbsPath exEnv [47, 101, 116, 99] = .error .internalError := by rfl
+example : RootOk exEnv.cwd := ⟨rfl, by decide⟩
 
 end S3V.C17
